@@ -1,145 +1,8 @@
-import OnetVerif.Model.Util
-/-! Model for property C17 — valid-peer sets decide exactly who may connect (core-only).
-
-* `network/router.go:62-146`: `validPeers` (`peers map[PeerSetID]peerSet`, nil map = "everybody
-  is valid"), `set`, `get`, `isValid`.
-* `network/router.go:208-245`: the accept path — identity exchange, validity test, register,
-  launch the receive loop; `router.go:359-381`: connections this router opens itself (no test).
-* `context.go:311-336`: the service-facing wrappers and the derivation of a set id from the
-  service id and the caller's bytes.
-
-An identity received from the wire has two **independent** fields the sender controls: the public
-key (authenticated only over TLS) and the deprecated `ID` field.  The id of a peer is the id of its
-key (`GetID()`); the model keeps track of which field every test reads.
--/
+import OnetVerif.Model.C17Table
+import OnetVerif.Model.C17Accept
+/-! Model for property C17 — line-protocol front end.  The table, the identities and the sequential
+router are in `Model/C17Table.lean`, the accept path as a transition system in `Model/C17Accept.lean`. -/
 namespace C17
-
-/-- a public key -/
-abbrev Key := Nat
-/-- `ServerIdentityID` -/
-abbrev PeerId := Nat
-/-- `PeerSetID` (32 bytes); for ids made by a service context: the pre-image of the hash -/
-abbrev SetId := List Nat
-
-/-- `ServerIdentity.GetID()`: a UUIDv5 of the key's text — modelled by its pre-image -/
-def idOfKey (k : Key) : PeerId := k
-
-/-- a `ServerIdentity` as far as the filter can see it -/
-structure Ident where
-  key : Key
-  /-- the deprecated, wire-supplied `ID` field -/
-  idField : PeerId
-  deriving DecidableEq, Repr
-
-def Ident.getID (i : Ident) : PeerId := idOfKey i.key
-
-/-- `NewServerIdentity`: the field is filled with the id of the key -/
-def Ident.honest (k : Key) : Ident := ⟨k, idOfKey k⟩
-
-/-- `validPeers.peers`: `none` = nil map -/
-abbrev VP := Option (List (SetId × List PeerId))
-
-/-- `validPeers.set` (router.go:91-108): a fresh set of the ids **of the keys** (the C17 fix: was
-the `ID` field) replaces the entry `id`; the map is created on first use. -/
-def VP.set (vp : VP) (id : SetId) (peers : List Ident) : VP :=
-  some ((id, peers.map Ident.getID) :: (vp.getD []).filter (fun e => e.1 != id))
-
-/-- `validPeers.get` (router.go:111-126): nil while uninitialised, else the members of the set
-(empty for an id never set) -/
-def VP.get (vp : VP) (id : SetId) : Option (List PeerId) :=
-  match vp with
-  | none => none
-  | some m => some ((m.lookup id).getD [])
-
-/-- `validPeers.isValid` (router.go:129-150): everybody while uninitialised, else membership of
-the id **of the key** in any of the sets -/
-def VP.isValid (vp : VP) (p : Ident) : Bool :=
-  match vp with
-  | none => true
-  | some m => m.any (fun e => e.2.contains p.getID)
-
-/-- the same test on the wire-supplied field — the code before the fix (kept for the witness) -/
-def VP.isValidByField (vp : VP) (p : Ident) : Bool :=
-  match vp with
-  | none => true
-  | some m => m.any (fun e => e.2.contains p.idField)
-
-/-- `NewPeerSetID(data)` (router.go:73-79): `copy` into a 32-byte array — pads with zeros, cuts
-what is longer -/
-def newPeerSetID (data : List Nat) : SetId := (data ++ List.replicate 32 0).take 32
-
-/-- `Context.NewPeerSetID(data)` (context.go:329-336): `sha256(serviceID ‖ data)` — its pre-image;
-the service id is a 16-byte UUID -/
-def ctxPeerSetID (serviceID data : List Nat) : SetId := serviceID ++ data
-
-/-! ### the router around the filter -/
-
-/-- why a registered connection exists (ghost information, only read by the theorems) -/
-inductive Origin where
-  /-- the peer offered it and passed the test against this table -/
-  | offered (vpThen : VP)
-  /-- this router dialled it itself (`connect`): never tested -/
-  | dialled
-  deriving DecidableEq, Repr
-
-structure Conn where
-  peer : Ident
-  origin : Origin
-  deriving DecidableEq, Repr
-
-structure State where
-  vp : VP := none
-  /-- `r.connections`, keyed by `remote.GetID()` -/
-  conns : List Conn := []
-  deriving DecidableEq, Repr
-
-inductive Op where
-  /-- `SetValidPeers(id, peers)` (router or service context) -/
-  | setPeers (id : SetId) (peers : List Ident)
-  /-- `GetValidPeers(id)` -/
-  | getPeers (id : SetId)
-  /-- a peer connects and sends its identity, then a message `m` -/
-  | offer (p : Ident) (m : Nat)
-  /-- a message arrives from the peer with this key over a connection that exists already -/
-  | msg (k : Key) (m : Nat)
-  /-- this router opens a connection to `p` (sending to it) -/
-  | dial (p : Ident)
-  /-- the connections with the peer of this key end -/
-  | drop (k : Key)
-  deriving Repr
-
-inductive Obs where
-  | done
-  | peers (r : Option (List PeerId))
-  /-- the connection was registered and the message handed to the dispatcher, attributed to `p` -/
-  | dispatched (p : Ident) (m : Nat)
-  /-- the connection was closed, nothing registered, nothing dispatched -/
-  | refused
-  /-- no connection with that peer: nothing can arrive -/
-  | noConn
-  deriving DecidableEq, Repr
-
-def step (s : State) : Op → State × Obs
-  | .setPeers id peers => ({ s with vp := s.vp.set id peers }, .done)
-  | .getPeers id => (s, .peers (s.vp.get id))
-  | .offer p m =>
-    -- router.go:225-244: test, then register, then the receive loop dispatches
-    if s.vp.isValid p then
-      ({ s with conns := s.conns ++ [{ peer := p, origin := .offered s.vp }] }, .dispatched p m)
-    else (s, .refused)
-  | .msg k m =>
-    match s.conns.find? (fun c => c.peer.key == k) with
-    | some c => (s, .dispatched c.peer m)
-    | none => (s, .noConn)
-  | .dial p => ({ s with conns := s.conns ++ [{ peer := p, origin := .dialled }] }, .done)
-  | .drop k => ({ s with conns := s.conns.filter (fun c => c.peer.key != k) }, .done)
-
-def run (s : State) : List Op → State × List Obs
-  | [] => (s, [])
-  | op :: l =>
-    let r := step s op
-    let r' := run r.1 l
-    (r'.1, r.2 :: r'.2)
 
 /-! ### line-protocol driver -/
 namespace Drv
@@ -149,6 +12,8 @@ set it is about to install -/
 structure State where
   st : C17.State := {}
   pending : Option (SetId × List Ident) := none
+  /-- the accept path driven act by act (`aconn`, `aident`, …); its table is kept equal to `st.vp` -/
+  acc : Acc.State := {}
 
 def init : State := {}
 
@@ -204,8 +69,22 @@ def showObs : Obs → String
   identity marked `!` (before its lock region, `router.go:96-106`): nothing has changed yet;
   `release` lets it finish. `validPeers.lock` makes `set`, `get` and `isValid` atomic, so whatever
   runs in between sees the table as it was before the call.
+
+The accept path act by act (`Model/C17Accept.lean`), on raw connections numbered 0, 1, … in the order
+they are opened; `set` / `get` / `sethold` / `release` and everything above may come in between:
+* `aconn <c>` — a peer connects and writes nothing yet (`c` must be the next number)
+* `aident <c> <ident>` — it writes that identity; the server reads it and tests it: `valid` (the
+  server's goroutine now stands before `registerConnection`) or `refused`
+* `afirst <c> <m>` — it writes an application message first instead: `iderr`
+* `areg <c>` — `registerConnection`: `registered`;  `alaunch <c>` — `launchHandleRoutine`, and the receive
+  loop reads what is waiting: `launched:<messages dispatched, or ->`
+* `amsg <c> <m>` — the peer writes message m: `dispatched:<key>:<m>` when the loop runs, `queued` while the
+  server's goroutine stands before registration or launch, `closed` when the server closed the connection
+* `areident <c> <ident>` — the peer writes one more identity message on a connection that is served:
+  `ignored` (nothing is dispatched; later messages keep the identity that was tested)
+* `agone <c>` — the peer closes its end
 -/
-def step (s : State) (toks : List String) : State × String :=
+def stepCore (s : State) (toks : List String) : State × String :=
   let go (op : Option Op) : State × String :=
     match op with
     | none => (s, "bad-op")
@@ -218,7 +97,7 @@ def step (s : State) (toks : List String) : State × String :=
     | _, _, _ => (s, "bad-op")
   | ["release"] =>
     match s.pending with
-    | some (id, ps) => ({ st := (C17.step s.st (.setPeers id ps)).1, pending := none }, "ok")
+    | some (id, ps) => ({ s with st := (C17.step s.st (.setPeers id ps)).1, pending := none }, "ok")
     | none => (s, "bad-op")
   | ["set", id, ps] => go (do let id ← parseSetId id; let ps ← parseIdents ps; pure (.setPeers id ps))
   | ["get", id] => go ((parseSetId id).map .getPeers)
@@ -226,7 +105,92 @@ def step (s : State) (toks : List String) : State × String :=
   | ["msg", k, m] => go (do let k ← k.toNat?; let m ← m.toNat?; pure (.msg k m))
   | ["dial", p] => go ((parseIdent p).map .dial)
   | ["drop", k] => go (k.toNat?.map .drop)
+  | ["aconn", c] =>
+    if c.toNat? = some s.acc.conns.length then ({ s with acc := Acc.step s.acc .connect }, "ok") else (s, "bad-op")
+  | ["aident", c, p] =>
+    match c.toNat?, parseIdent p with
+    | some c, some p =>
+      if Acc.phaseOf s.acc c = some .waitId ∧ (s.acc.conns[c]?.map (·.peerOpen)) = some true then
+        let a := Acc.run s.acc [.peerSend c (.ident p), .recvId c, .check c]
+        ({ s with acc := a }, match Acc.phaseOf a c with
+          | some (.checked _ _) => "valid" | some (.closed .refused) => "refused" | _ => "?")
+      else (s, "bad-op")
+    | _, _ => (s, "bad-op")
+  | ["afirst", c, m] =>
+    match c.toNat?, m.toNat? with
+    | some c, some m =>
+      if Acc.phaseOf s.acc c = some .waitId ∧ (s.acc.conns[c]?.map (·.peerOpen)) = some true then
+        let a := Acc.run s.acc [.peerSend c (.msg m), .recvId c]
+        ({ s with acc := a }, match Acc.phaseOf a c with | some (.closed .idErr) => "iderr" | _ => "?")
+      else (s, "bad-op")
+    | _, _ => (s, "bad-op")
+  | ["areg", c] =>
+    match c.toNat? with
+    | some c =>
+      match Acc.phaseOf s.acc c with
+      | some (.checked _ _) =>
+        let a := Acc.step s.acc (.register c)
+        ({ s with acc := a }, match Acc.phaseOf a c with | some (.registered _ _) => "registered" | _ => "closed")
+      | _ => (s, "bad-op")
+    | none => (s, "bad-op")
+  | ["alaunch", c] =>
+    match c.toNat? with
+    | some c =>
+      match Acc.phaseOf s.acc c, s.acc.conns[c]? with
+      | some (.registered _ _), some cn =>
+        -- launch, then one turn of the loop per message that is waiting (and one more for the end of
+        -- the stream when the peer has gone)
+        let a := Acc.run s.acc (.launch c :: List.replicate (cn.inbox.length + 1) (.recv c))
+        let got := (a.log.drop s.acc.log.length).map fun e => e.2.2
+        ({ s with acc := a }, match Acc.phaseOf (Acc.step s.acc (.launch c)) c with
+          | some (.running _ _) => "launched:" ++ (if got.isEmpty then "-" else Util.showNatList got)
+          | _ => "closed")
+      | _, _ => (s, "bad-op")
+    | none => (s, "bad-op")
+  | ["amsg", c, m] =>
+    match c.toNat?, m.toNat? with
+    | some c, some m =>
+      match s.acc.conns[c]? with
+      | some cn =>
+        if !cn.peerOpen then (s, "bad-op") else
+        match cn.phase with
+        | .waitId | .gotId _ => (s, "bad-op")
+        | .checked _ _ | .registered _ _ => ({ s with acc := Acc.step s.acc (.peerSend c (.msg m)) }, "queued")
+        | .closed _ => ({ s with acc := Acc.step s.acc (.peerSend c (.msg m)) }, "closed")
+        | .running p _ =>
+          let a := Acc.run s.acc [.peerSend c (.msg m), .recv c]
+          ({ s with acc := a }, if a.log.length = s.acc.log.length + 1 then s!"dispatched:{p.key}:{m}" else "lost")
+      | none => (s, "bad-op")
+    | _, _ => (s, "bad-op")
+  | ["areident", c, p] =>
+    match c.toNat?, parseIdent p with
+    | some c, some p =>
+      match s.acc.conns[c]? with
+      | some cn =>
+        if !cn.peerOpen then (s, "bad-op") else
+        match cn.phase with
+        | .running _ _ =>
+          let a := Acc.run s.acc [.peerSend c (.ident p), .recv c]
+          ({ s with acc := a }, if a.log.length = s.acc.log.length then "ignored" else "dispatched")
+        | _ => (s, "bad-op")
+      | none => (s, "bad-op")
+    | _, _ => (s, "bad-op")
+  | ["agone", c] =>
+    match c.toNat? with
+    | some c =>
+      match s.acc.conns[c]? with
+      | some cn =>
+        if !cn.peerOpen then (s, "bad-op") else
+        -- the server's goroutine notices where it is reading: in the identity exchange or in the loop
+        ({ s with acc := Acc.run s.acc [.peerClose c, .recvId c, .recv c] }, "ok")
+      | none => (s, "bad-op")
+    | none => (s, "bad-op")
   | _ => (s, "bad-op")
+
+/-- one line; the accept path's copy of the table follows the router's -/
+def step (s : State) (toks : List String) : State × String :=
+  let r := stepCore s toks
+  ({ r.1 with acc := { r.1.acc with vp := r.1.st.vp } }, r.2)
 
 end Drv
 
